@@ -70,10 +70,10 @@ impl AuthorHeads {
     /// Will skip oldest entries if the size limit is reached.
     /// Returns a byte array with a maximum length of `size_limit`.
     pub fn encode(&self, size_limit: Option<usize>) -> Result<Vec<u8>> {
-        let mut by_timestamp = BTreeMap::new();
-        for (author, ts) in self.iter() {
-            by_timestamp.insert(*ts, *author);
-        }
+        // sort by (timestamp, author): several authors may share a timestamp
+        let mut by_timestamp: Vec<(Timestamp, AuthorId)> =
+            self.iter().map(|(author, ts)| (*ts, *author)).collect();
+        by_timestamp.sort();
         let mut items = Vec::new();
         for (ts, author) in by_timestamp.into_iter().rev() {
             items.push((ts, author));
